@@ -157,6 +157,19 @@ func check(raw json.RawMessage) error {
 	if res.GetText() != want || res.GetBarcodeFormat() != format {
 		return fmt.Errorf("MISREAD: returned %q (%v), the image encodes %q (%v) [%s]", res.GetText(), res.GetBarcodeFormat(), want, format, desc)
 	}
+	// ORIENTATION is documented as degrees clockwise in [0,360); a sideways read reports an odd
+	// multiple of 90, an upside-down one 180
+	if ov, has := res.GetResultMetadata()[gozxing.ResultMetadataType_ORIENTATION]; has {
+		o, isInt := ov.(int)
+		if !isInt || o < 0 || o >= 360 || o%90 != 0 {
+			return fmt.Errorf("ORIENTATION metadata %v is outside the documented range [0,360) of quarter turns [%s]", ov, desc)
+		}
+		if c.Sym != "QR" && c.Sym != "DM" && !c.Mirror && (o/90)%2 != c.Rot%2 {
+			return fmt.Errorf("ORIENTATION %d reported for a 1-D symbol rotated by %d degrees [%s]", o, c.Rot*90, desc)
+		}
+	} else if c.Sym != "QR" && c.Sym != "DM" && !c.Mirror && c.Rot != 0 {
+		return fmt.Errorf("1-D symbol rotated by %d degrees read without ORIENTATION metadata [%s]", c.Rot*90, desc)
+	}
 	if c.Positive == "rot180" {
 		if o, _ := res.GetResultMetadata()[gozxing.ResultMetadataType_ORIENTATION].(int); o != 180 {
 			return fmt.Errorf("upside-down 1-D symbol read without ORIENTATION 180 (metadata %v) [%s]", res.GetResultMetadata()[gozxing.ResultMetadataType_ORIENTATION], desc)
